@@ -187,6 +187,57 @@ pub fn probe_iterators<K: KeyT, V: ValT>(rebuild: &dyn Fn() -> MapSut<K, V>, sut
             }
             count += 3;
         }
+        // rustc_iter(): a read-only view of what IterMut / IntoIter / Drain have not yielded yet
+        if j <= n {
+            let rest_ok = |first: &Vec<E3>, rest: Vec<E3>, what: &str| -> Result<(), String> {
+                let mut all = first.clone();
+                all.extend(rest);
+                if sorted(all.clone()) != full {
+                    return Err(format!("{what}: yielded so far {:?} + rustc_iter() {:?} != stored {:?}", first, &all[first.len()..], full));
+                }
+                Ok(())
+            };
+            {
+                let mut it = sut.map.iter_mut();
+                let mut first = Vec::new();
+                for _ in 0..j {
+                    first.push(kvm(it.next().ok_or("iter_mut(): ended early")?));
+                }
+                let rest = drive(it.rustc_iter(), n - j, 0, Tail::Next, "iter_mut().rustc_iter()", &kv)?;
+                rest_ok(&first, rest, "iter_mut().rustc_iter()")?;
+                let again: Vec<E3> = it.map(kvm).collect();
+                if again.len() != n - j {
+                    return Err("iter_mut(): rustc_iter() advanced the iterator it was taken from".into());
+                }
+            }
+            {
+                let kvo = |(k, v): (K, V)| (k.id(), k.tok(), v.tok());
+                let mut s = rebuild();
+                let m = std::mem::take(&mut s.map);
+                let mut it = m.into_iter();
+                let mut first = Vec::new();
+                for _ in 0..j {
+                    first.push(kvo(it.next().ok_or("into_iter(): ended early")?));
+                }
+                let rest = drive(it.rustc_iter(), n - j, 0, Tail::Next, "into_iter().rustc_iter()", &kv)?;
+                rest_ok(&first, rest, "into_iter().rustc_iter()")?;
+                drop(it);
+                s.finish().map_err(|m| format!("after into_iter().rustc_iter(): {m}"))?;
+                let mut s = rebuild();
+                {
+                    let mut it = s.map.drain();
+                    let mut first = Vec::new();
+                    for _ in 0..j {
+                        first.push(kvo(it.next().ok_or("drain(): ended early")?));
+                    }
+                    let rest = drive(it.rustc_iter(), n - j, 0, Tail::Next, "drain().rustc_iter()", &kv)?;
+                    rest_ok(&first, rest, "drain().rustc_iter()")?;
+                }
+                s.model.clear();
+                s.finish().map_err(|m| format!("after drain().rustc_iter(): {m}"))?;
+            }
+            count += 3;
+        }
         // consuming iterators need a fresh replay of the state each time
         for tail in [Tail::Next, Tail::Fold] {
             let kvo = |(k, v): (K, V)| (k.id(), k.tok(), v.tok());
@@ -644,6 +695,42 @@ pub fn probe_constructors<K: KeyT, V: ValT>() -> Result<u64, String> {
     if a1 != a0 {
         return Err("default()/with_hasher_in()/with_capacity(0) called the allocator".into());
     }
+    {
+        // constructors of the default-hasher / global-allocator flavours
+        use hashbrown::{HashMap, HashSet, HashTable};
+        let (a0, _) = env::alloc_calls();
+        let n1: HashMap<K, V, hashbrown::DefaultHashBuilder, CheckAlloc> = HashMap::new_in(CheckAlloc);
+        let n2: HashSet<K, hashbrown::DefaultHashBuilder, CheckAlloc> = HashSet::new_in(CheckAlloc);
+        let n3: HashTable<K, CheckAlloc> = HashTable::new_in(CheckAlloc);
+        let (a1, _) = env::alloc_calls();
+        if a1 != a0 || n1.capacity() != 0 || n2.capacity() != 0 || n3.capacity() != 0 || n1.allocation_size() + n2.allocation_size() + n3.allocation_size() != 0 {
+            return Err("new_in() allocated or reports capacity".into());
+        }
+        for n in [0usize, 1, 3, 4, 7, 8, 14, 15, 28, 29, 100] {
+            let c1: HashMap<K, V, hashbrown::DefaultHashBuilder, CheckAlloc> = HashMap::with_capacity_in(n, CheckAlloc);
+            let c2: HashSet<K, hashbrown::DefaultHashBuilder, CheckAlloc> = HashSet::with_capacity_in(n, CheckAlloc);
+            let c3: HashTable<K, CheckAlloc> = HashTable::with_capacity_in(n, CheckAlloc);
+            let g1: HashMap<K, V, PlanBuild> = HashMap::with_capacity_and_hasher(n, PlanBuild::default());
+            let g2: HashSet<K, PlanBuild> = HashSet::with_capacity_and_hasher(n, PlanBuild::default());
+            let g3: HashMap<K, V> = HashMap::with_capacity(n);
+            let g4: HashSet<K> = HashSet::with_capacity(n);
+            let g5: HashTable<K> = HashTable::with_capacity(n);
+            let caps = [c1.capacity(), c2.capacity(), c3.capacity(), g1.capacity(), g2.capacity(), g3.capacity(), g4.capacity(), g5.capacity()];
+            if caps.iter().any(|&c| c < n) || (n == 0 && caps.iter().any(|&c| c != 0)) {
+                return Err(format!("with_capacity*({n}) constructors report capacities {:?}", caps));
+            }
+            if c1.allocation_size() + c2.allocation_size() + c3.allocation_size() != env::live_bytes() {
+                return Err(format!("with_capacity_in({n}): allocation_size() of map+set+table != ledger {}", env::live_bytes()));
+            }
+            if (g1.allocation_size() == 0) != (n == 0) || (g5.allocation_size() == 0) != (n == 0) {
+                return Err(format!("with_capacity({n}) (global allocator): allocation_size() = {}", g1.allocation_size()));
+            }
+        }
+        if env::live_bytes() != 0 {
+            return Err("with_capacity_in constructors leaked".into());
+        }
+        count += 11;
+    }
     for m in [&m1, &m2, &m3] {
         if m.capacity() != 0 || m.allocation_size() != 0 || m.len() != 0 {
             return Err("empty constructor produced capacity or allocation".into());
@@ -850,7 +937,7 @@ pub fn probe_try_reserve<K: KeyT, V: ValT>(rebuild: &dyn Fn() -> MapSut<K, V>, s
 // C15 get_many_mut / get_many_key_value_mut
 // ---------------------------------------------------------------------------
 
-fn many_map<K: KeyT, V: ValT, const N: usize>(s: &mut MapSut<K, V>, ids: [u8; N], kv: bool) -> Result<(), String> {
+fn many_map<K: KeyT, V: ValT, const N: usize>(s: &mut MapSut<K, V>, ids: [u8; N], kv: bool, unchecked: bool) -> Result<(), String> {
     let krefs: [KeyRef; N] = std::array::from_fn(|i| KeyRef(ids[i]));
     let mut expect_panic = false;
     for i in 0..N {
@@ -860,13 +947,18 @@ fn many_map<K: KeyT, V: ValT, const N: usize>(s: &mut MapSut<K, V>, ids: [u8; N]
             }
         }
     }
+    if unchecked && expect_panic {
+        // overlapping requests are outside the contract of the unsafe variants
+        return Ok(());
+    }
     let before = sorted(s.model.clone());
     let map = &mut s.map;
     let r = env::catch(|| {
         let ks: [&KeyRef; N] = std::array::from_fn(|i| &krefs[i]);
         let mut out: [Option<(usize, u8, u32, u32)>; N] = [None; N];
         if kv {
-            let res = map.get_many_key_value_mut(ks);
+            // SAFETY (contract of the unchecked variant): no two requests resolve to the same entry
+            let res = if unchecked { unsafe { map.get_many_key_value_unchecked_mut(ks) } } else { map.get_many_key_value_mut(ks) };
             for (i, r) in res.into_iter().enumerate() {
                 if let Some((k, v)) = r {
                     let addr = v as *mut V as usize;
@@ -876,7 +968,8 @@ fn many_map<K: KeyT, V: ValT, const N: usize>(s: &mut MapSut<K, V>, ids: [u8; N]
                 }
             }
         } else {
-            let res = map.get_many_mut(ks);
+            // SAFETY: as above
+            let res = if unchecked { unsafe { map.get_many_unchecked_mut(ks) } } else { map.get_many_mut(ks) };
             for (i, r) in res.into_iter().enumerate() {
                 if let Some(v) = r {
                     let addr = v as *mut V as usize;
@@ -888,7 +981,12 @@ fn many_map<K: KeyT, V: ValT, const N: usize>(s: &mut MapSut<K, V>, ids: [u8; N]
         }
         out
     });
-    let name = if kv { "get_many_key_value_mut" } else { "get_many_mut" };
+    let name = match (kv, unchecked) {
+        (true, false) => "get_many_key_value_mut",
+        (false, false) => "get_many_mut",
+        (true, true) => "get_many_key_value_unchecked_mut",
+        (false, true) => "get_many_unchecked_mut",
+    };
     match r {
         Err(m) => {
             if !expect_panic {
@@ -960,19 +1058,19 @@ pub fn probe_many_mut<K: KeyT, V: ValT>(s: &mut MapSut<K, V>, universe: u8, stat
         }
     }
     let mut count = 0u64;
-    for kv in [false, true] {
-        many_map::<K, V, 0>(s, [], kv)?;
+    for (kv, unchecked) in [(false, false), (true, false), (false, true), (true, true)] {
+        many_map::<K, V, 0>(s, [], kv, unchecked)?;
         for &a in &ids {
-            many_map::<K, V, 1>(s, [a], kv)?;
+            many_map::<K, V, 1>(s, [a], kv, unchecked)?;
             for &b in &ids {
-                many_map::<K, V, 2>(s, [a, b], kv)?;
+                many_map::<K, V, 2>(s, [a, b], kv, unchecked)?;
                 count += 1;
                 for &c in &ids {
-                    many_map::<K, V, 3>(s, [a, b, c], kv)?;
+                    many_map::<K, V, 3>(s, [a, b, c], kv, unchecked)?;
                     count += 1;
                     if ids.len() <= 6 {
                         for &d in &ids {
-                            many_map::<K, V, 4>(s, [a, b, c, d], kv)?;
+                            many_map::<K, V, 4>(s, [a, b, c, d], kv, unchecked)?;
                             count += 1;
                         }
                     }
